@@ -8,22 +8,25 @@ COMMON_NOTE = ("Trusted: Lean 4.33 kernel, Mathlib v4.33, rs2lean's Rust-subset 
 PROPS = {
     "C05": {
         "title": "Evaluation, subdivision, sections and reversal describe the same curve",
-        "gen_modules": ["Consts", "Basis", "Section"],
+        "gen_modules": ["Consts", "Basis", "Section", "PathRev"],
+        "props_modules": ["C05", "C05Path"],
         "corr_n": (20000, 400000),
         "search_n": (20000, 400000),
         "technique": "Lean 4 theorems over definitions translated from the Rust source on every run + exact correspondence",
         "level_text": "Every identity of the property (basis = de Casteljau, exact ends, both halves of subdivide, section and nested subsection points, "
                       "section control points define the same cubic incl. a=b and a=1, reversal) is a Lean theorem for all control points and parameters over any ordered field, "
                       "about definitions that rs2lean regenerates from basis.rs / subdivide.rs / section.rs / curve.rs on every run; lifted to 2-D/3-D component-wise. "
+                      "BezierPath::reversed (regenerated from path.rs): for every path - any number of curves, including a start point only - reversing twice is the identity and the reversed path's "
+                      "curves are the reversed curves of the original in reverse order (path_reversed_twice, path_reversed_curves, path_reversed_ends). "
                       "The same generated definitions are executed (exact rationals and Float) against the real functions in 1-D/2-D/3-D.",
         "level_note": "Exact arithmetic: binary64 rounding is not modelled (agreement is exact on the dyadic stream and within 64-256 ulp of the polygon size on reals). "
-                      "BezierPath::reversed is checked on the real code only (search), not yet a theorem. " + COMMON_NOTE,
+                      "" + COMMON_NOTE,
         "rule": "corr: random operation (basis/point_at_pos/de_casteljau4, subdivide, section incl. control points, subsection, reverse, t_for_t and inverse) "
                 "in 1-D/2-D/3-D, alternating a dyadic stream (coordinates k/8 in [-64,64], parameters k/16, sections with 1-a and b-a powers of two: "
                 "model and implementation must agree exactly) and a real stream (tolerance 64..256 units of 2^-52 x control polygon size); "
                 "boundary parameters 0, 1, a=b, a=1 are forced in. search: the identities of the property on the real code "
                 "(zero tolerance on the dyadic stream). Non-trivial: parameter not 0/1 (section: a<b) and curve not closed onto its start; distinct by input bits.",
-        "trusted_base": ["model of BezierPath::reversed is not translated: the path-level identities are checked on the real code by search only"],
+        "trusted_base": ["BezierPath::to_curves is specified in Lean (curvesOf), not translated; the search compares it with reversed() on the real code"],
         "assumptions": ["theorems are over exact arithmetic (any ordered field); binary64 rounding is bounded by the real-stream tolerance, not proved"],
     },
     "C18": {
